@@ -449,6 +449,90 @@ func travSkelLiteral(sk *travSkeleton, s string) {
 	}
 }
 
+// travRefinePuncts cuts the punctuation tokens of both sides into common pieces: a token that
+// starts or ends with another token of the union is split there, until nothing changes; both
+// sides are then expressed in these pieces.
+func travRefinePuncts(a, b map[string]bool) (map[string]bool, map[string]bool) {
+	atoms := map[string]bool{}
+	for t := range a {
+		atoms[t] = true
+	}
+	for t := range b {
+		atoms[t] = true
+	}
+	sorted := func(m map[string]bool) []string {
+		var out []string
+		for k := range m {
+			out = append(out, k)
+		}
+		sort.Strings(out)
+		return out
+	}
+	for changed, rounds := true, 0; changed && rounds < 32; rounds++ {
+		changed = false
+		for _, t := range sorted(atoms) {
+			for _, p := range sorted(atoms) {
+				if p == t || len(p) >= len(t) || !atoms[t] {
+					continue
+				}
+				rest := ""
+				switch {
+				case strings.HasPrefix(t, p):
+					rest = t[len(p):]
+				case strings.HasSuffix(t, p):
+					rest = t[:len(t)-len(p)]
+				default:
+					continue
+				}
+				if rest == p {
+					continue // "==" is not "=" cut twice: a doubled token is a token of its own
+				}
+				delete(atoms, t)
+				atoms[rest] = true
+				changed = true
+			}
+		}
+	}
+	var seg func(t string, out map[string]bool) bool
+	seg = func(t string, out map[string]bool) bool {
+		if t == "" {
+			return true
+		}
+		if atoms[t] {
+			out[t] = true
+			return true
+		}
+		for _, p := range sorted(atoms) {
+			if strings.HasPrefix(t, p) {
+				tmp := map[string]bool{}
+				if seg(t[len(p):], tmp) {
+					out[p] = true
+					for k := range tmp {
+						out[k] = true
+					}
+					return true
+				}
+			}
+		}
+		return false
+	}
+	express := func(m map[string]bool) map[string]bool {
+		out := map[string]bool{}
+		for _, t := range sorted(m) {
+			tmp := map[string]bool{}
+			if seg(t, tmp) {
+				for k := range tmp {
+					out[k] = true
+				}
+			} else {
+				out[t] = true
+			}
+		}
+		return out
+	}
+	return express(a), express(b)
+}
+
 func travSetDiff(a, b map[string]bool) []string {
 	var out []string
 	for k := range a {
@@ -529,6 +613,14 @@ func rulePrinterTwins(c *Ctx) []Obligation {
 			travAddComponents(m.pP, m, p.T, sp2, map[*types.Named]bool{p.T: true}, 0)
 			if !differ(sp2, sa2) {
 				sa.words, sa.puncts, sp.words, sp.puncts = sa2.words, sa2.puncts, sp2.words, sp2.puncts
+			}
+		}
+		// The same punctuation may be cut into literals differently ("%s..=%s" on one side, ".." and "="
+		// on the other): compare the pieces after cutting every token at the tokens it starts / ends with.
+		if differ(sp, sa) {
+			rp, ra := travRefinePuncts(sp.puncts, sa.puncts)
+			if len(travSetDiff(sp.words, sa.words))+len(travSetDiff(sa.words, sp.words))+len(travSetDiff(rp, ra))+len(travSetDiff(ra, rp)) == 0 {
+				sp.puncts, sa.puncts = rp, ra
 			}
 		}
 		var problems []string
